@@ -322,12 +322,13 @@ pub fn gen_compose(t: &mut Tape, max_statements: u64) -> Scenario {
 
 pub fn gen_plug(t: &mut Tape) -> Scenario {
     let lib = library();
-    let ncomp = lib.iter().filter(|p| !p.exports.iter().any(|e| e.ends_with("-world"))).count();
-    let sockets: Vec<usize> = (0..ncomp).filter(|i| !lib[*i].imports.is_empty()).collect();
+    let comps = crate::corpus::component_indices();
+    let ncomp = comps.len();
+    let sockets: Vec<usize> = comps.iter().copied().filter(|i| !lib[*i].imports.is_empty()).collect();
     let si = if t.chance(9, 10) {
         sockets[t.index(sockets.len())]
     } else {
-        t.index(ncomp)
+        comps[t.index(ncomp)]
     };
     let socket = &lib[si];
     let mut tree = Tree::default();
@@ -338,13 +339,15 @@ pub fn gen_plug(t: &mut Tape) -> Scenario {
     let mut plugs = Vec::new();
     for k in 0..nplugs {
         // bias towards components that export something the socket imports
-        let candidates: Vec<usize> = (0..ncomp)
+        let candidates: Vec<usize> = comps
+            .iter()
+            .copied()
             .filter(|i| lib[*i].exports.iter().any(|e| socket.imports.contains(e)))
             .collect();
         let pi = if !candidates.is_empty() && t.chance(3, 4) {
             candidates[t.index(candidates.len())]
         } else {
-            t.index(ncomp)
+            comps[t.index(ncomp)]
         };
         let stem = if t.chance(1, 2) {
             stems[t.index(stems.len())].to_string()
@@ -410,17 +413,25 @@ pub fn gen_parse(t: &mut Tape) -> Scenario {
 
 pub fn gen_targets(t: &mut Tape) -> Scenario {
     let lib = library();
-    let ncomp = lib.iter().filter(|p| !p.exports.iter().any(|e| e.ends_with("-world"))).count();
-    let ci = t.index(ncomp);
+    let comps = crate::corpus::component_indices();
     let mut tree = Tree::default();
     tree.dir("home");
-    tree.file("comp.wasm", lib[ci].bytes.clone());
-    let (pkg_i, worlds): (usize, &[&str]) = if t.chance(1, 2) {
-        (0, &["app-world", "logger-world"])
+    // (WIT text, its worlds, a component that conforms to one of them)
+    let choices: [(&str, &[&str], &str); 5] = [
+        (crate::corpus::WIT_PACKAGES[0].2, &["app-world", "logger-world"], "test:logger"),
+        (crate::corpus::WIT_PACKAGES[1].2, &["util-world", "plain-world"], "test:util"),
+        (crate::corpus::WIT_PACKAGES_2[0].2, &["only"], "test:plain"),
+        (crate::corpus::WIT_PACKAGES_2[1].2, &[], "test:plain"),
+        (crate::corpus::WIT_PACKAGES_2[2].2, &["nav-world"], "test:nav"),
+    ];
+    let (text, worlds, conforming) = choices[t.index(choices.len())];
+    // bias towards the conforming component so that the success verdict is reached
+    let ci = if t.chance(1, 2) {
+        lib.iter().position(|p| p.name == conforming).unwrap_or(comps[0])
     } else {
-        (1, &["util-world", "plain-world"])
+        comps[t.index(comps.len())]
     };
-    let text = crate::corpus::WIT_PACKAGES[pkg_i].2;
+    tree.file("comp.wasm", lib[ci].bytes.clone());
     let as_dir = t.chance(1, 2);
     let wit = if as_dir {
         tree.file("wit/pkg.wit", text.as_bytes().to_vec());
@@ -429,10 +440,12 @@ pub fn gen_targets(t: &mut Tape) -> Scenario {
         tree.file("world.wit", text.as_bytes().to_vec());
         "world.wit".to_string()
     };
-    let world = match t.draw(5) {
-        0 => None,
-        1 => Some("no-such-world".to_string()),
-        _ => Some(worlds[t.index(worlds.len())].to_string()),
+    let world = match t.draw(6) {
+        0 | 1 => None,
+        2 => Some("no-such-world".to_string()),
+        3 => Some("util-world".to_string()),
+        _ if !worlds.is_empty() => Some(worlds[t.index(worlds.len())].to_string()),
+        _ => None,
     };
     let mut faults = Vec::new();
     if t.chance(1, 4) {
